@@ -4,6 +4,7 @@
 //!                    --known <known_findings.jsonl> --out <evidence-part.json> --replay-dir <dir>
 //!   celharness replay <file> --model <celmodel>
 mod ctx;
+mod gen;
 mod model;
 mod prng;
 mod props;
